@@ -52,7 +52,7 @@ fn gen_spec(rng: &mut Rng, mode: usize) -> Spec {
         chosen.push(paths.remove(i).to_string());
     }
     // modules with EQUAL names: `x.lua` and `x/init.lua` are both module `x` (ties of a name-only sort key)
-    for (a, b) in [("foo.lua", "foo/init.lua"), ("sub/bar.lua", "sub/bar/init.lua"), ("m1.lua", "m1/init.lua")] {
+    for (a, b) in [("foo.lua", "foo/init.lua"), ("sub/bar.lua", "sub/bar/init.lua"), ("m1.lua", "m1/init.lua"), ("foo.lua", "Foo.lua")] {
         if rng.chance(2, 5) {
             for f in [a, b] {
                 if !chosen.iter().any(|c| c == f) {
@@ -113,6 +113,13 @@ fn gen_spec(rng: &mut Rng, mode: usize) -> Spec {
                     }
                     if rng.chance(1, 4) {
                         ret = Some(name.clone());
+                    }
+                    if mode >= 1 && rng.chance(1, 5) {
+                        // a class whose name differs only by case, with members differing only by case
+                        let lower = name.to_lowercase();
+                        texts[i].push_str(&format!("---@class {}\n---@field val integer\n---@field Val string\n\n", lower));
+                        add_type(&mut sp, full(&ns[i], &lower), "class", &chosen[i]);
+                        sp.features.insert("names-differing-by-case".into());
                     }
                     // split: declare the same class again in another file (partial class)
                     if mode >= 2 && nfiles > 1 && rng.chance(1, 3) {
@@ -189,6 +196,14 @@ fn gen_spec(rng: &mut Rng, mode: usize) -> Spec {
                         texts[j].push_str(&format!("{} = {}\n\n", name, 1000 + rng.below(100)));
                         sp.globals.get_mut(&name).unwrap().push(format!("main/{}", chosen[j]));
                         sp.features.insert("global-in-two-files".into());
+                        // a second global whose name differs only by case, next to one of the two assignments
+                        if rng.chance(1, 2) {
+                            let lower = name.to_lowercase();
+                            let k = if rng.chance(1, 2) { i } else { j };
+                            texts[k].push_str(&format!("{} = true\n\n", lower));
+                            sp.globals.entry(lower).or_default().push(format!("main/{}", chosen[k]));
+                            sp.features.insert("names-differing-by-case".into());
+                        }
                     }
                 }
             }
